@@ -18,7 +18,7 @@ for it in range(R.n(30, 600)):
     asc = rng.random() < 0.5
     fch1 = rng.choice([6e9, 1.4e9])
     data = nrng.normal(10, 1, (T, n))
-    fr = stg.Frame.from_data(df, dt, fch1, asc, data, t_start=1234.5, source_name='SRC')
+    fr = stg.Frame(fchans=n, tchans=T, df=df, dt=dt, fch1=fch1, ascending=asc, data=data, t_start=1234.5, source_name='SRC')
     c = dict(n=n, T=T, df=df, dt=dt, asc=asc, fch1=fch1)
 
     def inh(tag, g, cc):
